@@ -43,6 +43,10 @@ SPEC = Spec(
     ],
     assumptions=[
         "Outcome.rejected/handled are distinguished by whether the base handler ran (observed directly in the harness)",
+        "compression LEVELS: which levels ClientConfig.Validate accepts is regenerated from Type.ValidateParams and predicted by the model for every configuration the harness tries (1 case in 6 sits on the boundary, both sides); that gzip/zlib accept exactly -2..9 and zstd any level is a library fact (libLevelOk, trusted); that an accepted level then ROUND-TRIPS is the codec law, sampled at every accepted boundary level",
+        "the round-trip law of gzip/zlib/zstd/snappy/lz4 is SAMPLED, not proved: most random bodies are <= 4 KiB, 1 case in 12 goes up to 300 kB and 1 in 48 up to 1.2 MB (multi-block), the corpus adds 64 KiB+-1, 200-300 kB at every level, 1 MiB bombs; 4 MiB+ only in thorough",
+        "C16_isolation*, C16_error_handler, C16_limit_any_read_mode, C16_decoded_request_is_relabelled are bookkeeping theorems: true by the shape of their definitions; their tie to the code is a translator flag/shape check plus harness cases, not a proof about Go code",
+        "overlap of requests in time is MONITORED (conc cases, -race in thorough), not modelled",
         "WithErrorHandler is modelled as a status function on the rejection path (serveE; the harness registers one answering status+18/22/51 in 1 case of 6); WithDecoder decoders are modelled as further lawful/hostile codecs keyed custom:<id> (the harness registers an xor decoder)",
     ],
 )
